@@ -6,6 +6,7 @@ from ..facts import AnchorMissing
 from ..guards import analysis
 from ..sym import Sym, forward_paths, path_atoms, atom_str, Poly
 from ..terms import strip, short, cname, show
+from .common import check_lookup, int_conversion_ranges, ranges_of
 
 LEVEL = "other"
 CHUNK = "alpha_g_detector::padwing::Chunk"
@@ -154,6 +155,16 @@ def run(prog, tier, res):
         res.hit(R4)
     else:
         res.violate(R4, PCRC, "payload-writer", "payload_crc32c() is not !crc32c(payload ++ zero padding): %s" % prets, pb.where())
+    R5 = res.rule("C03.R5", "device-id / chip-id conversions are total lookups (whole value compared; chip 0..=3)", 2)
+    check_lookup(prog, res, R5, "<alpha_g_detector::padwing::BoardId as std::convert::TryFrom<u32>>::try_from",
+                 "alpha_g_detector::padwing::PADWING_BOARDS", 2, 3)
+    AFN = "<alpha_g_detector::padwing::AfterId as std::convert::TryFrom<u8>>::try_from"
+    allowed, stored, unknown = int_conversion_ranges(prog, AFN)
+    res.functions.add(AFN)
+    if ranges_of(allowed) == [[0, 3]] and not unknown:
+        res.hit(R5)
+    else:
+        res.violate(R5, AFN, "range", "chip-id conversion accepts %s, the property says chips 0..=3" % ranges_of(allowed), prog.bodies[AFN].where())
     res.undecided = ["CRC-32C detecting all 1-3 bit errors and bursts <= 32 is a property of the polynomial (trusted)"]
 
 
